@@ -25,7 +25,7 @@ def workloads():
         (I(ex + "a/s1"), I(ex + "p#q"), ("lit", "x", "", ""), ("dg",)),
         (I(ex + "b/s9"), I(ex + "p#q"), ("lit", "x", "", ""), I(ex + "g/1")),
         (I(ex + "b/s9"), I(ex + "p#z"), I(ex + "a/s1"), I(ex + "g/1")),
-        (("bn", "n7"), I(ex + "p#z"), ("lit", "w", "de", ""), ("bn", "g2")),
+        (("bn", "n7"), I(ex + "p#z"), ("lit", "chat", "EN", ""), ("bn", "g2")),
     ], ())
     w["C"] = ("generic", 2, [
         (I(ex + "c/1"), I(ex + "p#q"), I(ex + "c/2"), I(ex + "g/1")),
@@ -37,7 +37,7 @@ def workloads():
         (I(ex + "a/s1"), I(ex + "p#q"), ("lit", "1", "", "http://www.w3.org/2001/XMLSchema#integer")),
         (I(ex + "d/x"), I(ex + "p#q"), I(ex + "a/s1")),
         (I(ex + "d/x"), I(ex + "p#q"), I(ex + "d/y")),
-        (("bn", "b1"), I(ex + "other"), ("lit", "1", "", "")),
+        (("bn", "b1"), I(ex + "other"), ("lit", "chat", "en", "")),
     ], ())
     return w
 
@@ -86,5 +86,14 @@ def digests() -> dict:
     return d
 
 
+def one_digest(name: str) -> str:
+    if name in workloads():
+        return hashlib.sha256(solo_bytes(name)).hexdigest()
+    return digests()[name]
+
+
 if __name__ == "__main__":
-    json.dump(digests(), sys.stdout)
+    if len(sys.argv) > 1:              # ONE workload, alone in a fresh process: no other stream has ever existed here
+        json.dump({sys.argv[1]: one_digest(sys.argv[1])}, sys.stdout)
+    else:
+        json.dump(digests(), sys.stdout)
